@@ -42,6 +42,10 @@ ASSUMPTIONS = ["models = hand-written ImplApp.v / ImplAx25.v / ImplRxIndex.v wit
 TRUSTED = ["AddressSanitizer / UBSan (-fsanitize=address,undefined,float-cast-overflow -fno-sanitize-recover=all) and libstdc++ _GLIBCXX_ASSERTIONS as the implementation-side fault detector",
            "libcodec2 (uninstrumented) ; Boost.CRC"]
 
+EXPLANATION = ("Coq theorems: no checked access of the models faults, for all inputs (handlers, AX.25 parser, framer, LICH, clock post-processing under the "
+               "stated estimate hypothesis). Tie: model fault <=> death of the real code under ASan/UBSan/_GLIBCXX_ASSERTIONS on the cases of this run; "
+               "the floating-point estimators and the standard library are only exercised (sanitizer runs), not proved.")
+
 SAN_EXTRA = ["-fsanitize=float-cast-overflow"]
 LIBS = ["-lcodec2", "-lboost_program_options"]
 
